@@ -31,6 +31,25 @@ class SlotLM(LightNodeMixin):
         return "SlotLM(%r)" % (self.name,)
 
 
+class StrSlotLM(LightNodeMixin):
+    """Slotted user class whose __slots__ is a plain string (legal: one slot of that name)."""
+
+    __slots__ = "payload"
+
+    def __init__(self, payload=None, parent=None, children=None):
+        self.payload = payload
+        self.parent = parent
+        if children:
+            self.children = children
+
+    @property
+    def name(self):
+        return self.payload
+
+    def __repr__(self):
+        return "StrSlotLM(%r)" % (self.payload,)
+
+
 class DictLM(LightNodeMixin):
     """User class on LightNodeMixin without __slots__ of its own (has a __dict__)."""
 
@@ -45,7 +64,19 @@ class DictLM(LightNodeMixin):
         return "DictLM(%r)" % (self.name,)
 
 
-class PlainLink(SymlinkNodeMixin):
+class Titled(object):
+    """An application base class shared by nodes and links: a settable property 'title'."""
+
+    @property
+    def title(self):
+        return self.__dict__.get("_title")
+
+    @title.setter
+    def title(self, value):
+        self.__dict__["_title"] = value
+
+
+class PlainLink(Titled, SymlinkNodeMixin):
     """User symlink class built directly on SymlinkNodeMixin."""
 
     icon = "arrow"  # a class-level default of the link class: an assignment through the link still goes to the target
@@ -133,7 +164,7 @@ class SlotDictNM(Record, NodeMixin):
         return "SlotDictNM(%r)" % (self.name,)
 
 
-class PropLink(SymlinkNodeMixin):
+class PropLink(Titled, SymlinkNodeMixin):
     """Link whose `target` is a read-only property (the docs only require that the class has a `target` attribute)."""
 
     icon = "arrow"
@@ -152,7 +183,7 @@ class PropLink(SymlinkNodeMixin):
         return "PropLink(...)"
 
 
-class SlotLink(SymlinkNodeMixin):
+class SlotLink(Titled, SymlinkNodeMixin):
     """Link that keeps `target` in a slot instead of the instance dictionary."""
 
     __slots__ = ("target",)
@@ -176,7 +207,7 @@ def class_link(target):
         if children:
             self.children = children
 
-    cls = type("ClassLink", (SymlinkNodeMixin,), {"target": target, "icon": "arrow", "__init__": __init__, "__repr__": lambda self: "ClassLink(...)"})
+    cls = type("ClassLink", (Titled, SymlinkNodeMixin), {"target": target, "icon": "arrow", "__init__": __init__, "__repr__": lambda self: "ClassLink(...)"})
     return cls()
 
 
